@@ -105,9 +105,15 @@ func (m *patternMatcher) match() {
 			c := m.captures[item.bytes[0]]
 			end := m.si + c.end - c.start
 			// A position capture (c.end == -1) has no substring: it never matches.
-			if c.end >= c.start && end <= len(m.s) && m.s[c.start:c.end] == m.s[m.si:end] {
-				m.si = end
-				m.pi++
+			if c.end >= c.start && end <= len(m.s) {
+				// The comparison is linear in the length of the capture.
+				m.consumeBudgetN(uint64(c.end - c.start))
+				if m.s[c.start:c.end] == m.s[m.si:end] {
+					m.si = end
+					m.pi++
+				} else {
+					m.trackback()
+				}
 			} else {
 				m.trackback()
 			}
@@ -215,6 +221,18 @@ func (m *patternMatcher) consumeBudget() {
 	if m.budget == 0 {
 		panic(budgetConsumed)
 	}
+}
+
+// consumeBudgetN is the same as calling consumeBudget n times.
+func (m *patternMatcher) consumeBudgetN(n uint64) {
+	if m.budget == 0 || n == 0 {
+		return
+	}
+	if n >= m.budget {
+		m.budget = 0
+		panic(budgetConsumed)
+	}
+	m.budget -= n
 }
 
 var budgetConsumed interface{} = "budget consumed"
